@@ -109,6 +109,16 @@ def run(ctx):
         b = fx.body("<std::ffi::os_str::OsStr as clap_lex::ext::OsStrExt>::" + fn_)
         missing = [n for n in need if not tree_calls(b, n)]
         res.check(not missing, "R14.2", "byte-ops|" + fn_, b.where(), "%s built from %s" % (fn_, [n.rstrip("$") for n in need]), "%s no longer uses %s" % (fn_, missing))
+    # the one-line helpers ARE the byte-level operation: exact result expressions
+    EXACT = {"strip_prefix": r"map\(strip_prefix\(as_encoded_bytes\(self\),as_bytes\(prefix\)\),closure\(\)\)",
+             "starts_with": r"starts_with\(as_encoded_bytes\(self\),as_bytes\(prefix\)\)",
+             "contains": r"is_some\(find\(self,needle\)\)"}
+    for fn_, rx in EXACT.items():
+        b = fx.body("<std::ffi::os_str::OsStr as clap_lex::ext::OsStrExt>::" + fn_)
+        defs = b.def_sites(0)
+        es = sorted(set((expr(b, {"cp": 0}) if not isinstance(d[3], dict) else (expr(b, d[3]["op"]) if d[3]["k"] == "use" else d[3]["k"])) for d in defs))
+        res.check(len(defs) == 1 and re.fullmatch(rx, es[0]) is not None, "R14.2", "exact|" + fn_, b.where(), "%s = %s" % (fn_, es[0][:70]),
+                  "%s no longer is exactly the byte-level operation (results: %s): it can answer differently from the same operation on the bytes" % (fn_, [e[:80] for e in es]))
     # find's window: starts_with on bytes[x..] compared with needle bytes
     fd = fx.body("<std::ffi::os_str::OsStr as clap_lex::ext::OsStrExt>::find")
     cl0 = [cb for c in fd.calls_to(r"Iterator>?::find$") for cb in closure_bodies(fx, c)]
